@@ -41,6 +41,7 @@ WITNESSES = [
     b"package p\n\nimport \"sync\"\n\ntype A struct {\n\tBase `bson:\",inline\"`\n\tsync.Mutex `json:\"-\"`\n\t*Base2 `yaml:\",inline\"`\n\t*pkg.T \"raw\"\n\tX int `json:\"x\"`\n}\n\n"
     b"var v = struct {\n\tBase `k:\"v\"`\n\t*sync.Mutex `m:\"n\"`\n}{}\n\nvar w = []struct{ pkg.T `a:\"b\"` }{{}}\n\nfunc f(x struct{ Base `a:\"b\"` }) (r struct{ *Base `c:\"d\"` }) { return }\n\n"
     b"type G[T any] struct {\n\tInner[T] `g:\"t\"`\n\t*sync.Map `json:\"-\"`\n}\n",
+    b"package p\nvar v = append(a, b...)\nvar w = f(g(xs...), ys...)\nconst n = len(h(s...))\nvar fn = func(a ...int) int { return sum(a...) }\n",   # call ellipsis
     b"package p\nvar a, b, c = 1, 2, 3\nconst x, y, z, w = 1, 2, 3, 4\nvar (\n\tm, n, o int = f(1), g[2], h.i\n)\n",
     b"package p\nimport (\n\t\"fmt\"\n\tx \"os\"\n)\nconst (\n\tA = iota\n\tB\n)\ntype T struct {\n\tA int `json:\"a\"`\n\tB, C []*T\n\tfmt.Stringer\n}\n",
 ]
